@@ -532,3 +532,44 @@ Qed.
 
 Lemma max_ge_2 : 2 <= maxRemainingLength.
 Proof. unfold maxRemainingLength. lia. Qed.
+
+Lemma idx_app_off a b i k : i = (length a + k)%nat -> idx (a ++ b) i = idx b k.
+Proof.
+  intros ->. unfold idx. rewrite nth_error_app2 by lia.
+  replace (length a + k - length a)%nat with k by lia. reflexivity.
+Qed.
+
+Lemma beq_bytes_refl a : beq_bytes a a = true.
+Proof. induction a as [|x a IH]; [reflexivity|]. cbn [beq_bytes]. rewrite N.eqb_refl, IH. reflexivity. Qed.
+
+Lemma len_0_nil (s : bytes) : (len s =? 0) = true -> s = [].
+Proof. destruct s; [reflexivity|]. intros H. discriminate H. Qed.
+
+Lemma byte_range_forall (P : N -> bool) :
+  forallb P (map N.of_nat (seq 0 256)) = true -> forall t, t < 256 -> P t = true.
+Proof.
+  intros H t Ht. rewrite forallb_forall in H. apply H. apply in_map_iff.
+  exists (N.to_nat t). split; [lia|apply in_seq; lia].
+Qed.
+
+Lemma land1_testbit0 f : f < 256 -> (N.land f 1 =? 0) = negb (N.testbit f 0).
+Proof.
+  intros H. apply Bool.eqb_prop. revert f H.
+  apply (byte_range_forall (fun f => Bool.eqb (N.land f 1 =? 0) (negb (N.testbit f 0)))).
+  vm_compute. reflexivity.
+Qed.
+
+Lemma length_eqb_len (s : bytes) : (length s =? 0)%nat = (len s =? 0).
+Proof. destruct s; reflexivity. Qed.
+
+Print Assumptions uvarint4_varint.
+Print Assumptions hdr_msglen_of_varint.
+Print Assumptions uvarint4_used.
+Print Assumptions rd16_be16.
+Print Assumptions read_lp_spec.
+Print Assumptions read_lp_lp.
+Print Assumptions hdr_decode_spec.
+Print Assumptions hdr_decode_fixed.
+Print Assumptions hdr_encode_ok.
+Print Assumptions infix_firstn.
+Print Assumptions infix_read_lp.
